@@ -322,6 +322,7 @@ def run(ck, m):
 
 
 MUTANTS = [
+    M("strip-lines-in-place", UW, "UrwidImageCanvas.content", "            pad = size[1] - image_size[1]\n", "            self._ti_lines[0] = self._ti_lines[0].replace(b\"\\0\\0\", b\"\\0\")\n            pad = size[1] - image_size[1]\n", {"R3"}),
     M("rows-fit-size-0", UW, "UrwidImage.rows", "if ori_size[0] <= fit_size[0] and ori_size[1] <= fit_size[1]\n                else fit_size[1]", "if ori_size[0] <= fit_size[0]\n                else fit_size[1]", {"R1"}),
     M("drop-color-reset", UW, "UrwidImageCanvas.content", "                    *image_line,\n                    *color_reset,\n", "                    *image_line,\n", {"R2"}),
     M("reset-after-padding", UW, "UrwidImageCanvas.content", "                    *color_reset,\n                    *right_padding,\n", "                    *right_padding,\n                    *color_reset,\n", {"R2"}),
